@@ -233,6 +233,16 @@ def toys():
     out.append(('constant_row_false', cl.Problem(cl.MAX, x[0] + x[1], [G @ x <= np.array([4.0, -2.0, 3.0]), x >= 0]), 'solved', -math.inf, x, None))
     x = cl.Variable(shape=(2,), name='x')
     out.append(('constant_row_equal', cl.Problem(cl.MIN, x[0] + x[1], [G @ x == np.array([1.0, 0.0, 2.0])]), 'solved', 3.0, x, [1, 2]))
+    # a Variable that occurs only inside a nonlinear atom on the RIGHT-hand side still receives its value
+    yv = cl.Variable(shape=(2,), name='y')
+    tv = cl.Variable(shape=(1,), name='t')
+    out.append(('rhs_atom_only', cl.Problem(cl.MIN, tv[0], [tv >= cl.vector2norm(yv - np.array([3.0, 4.0])) + 1.0]), 'solved', 1.0, yv, [3, 4]))
+    # a norm with a constant non-zero component: sqrt(x^2 + 1)
+    xv = cl.Variable(shape=(1,), name='x')
+    sv = cl.Variable(shape=(1,), name='s')
+    out.append(('norm_constant_component', cl.Problem(cl.MIN, sv[0], [cl.vector2norm(cl.hstack((xv, np.array([1.0])))) <= sv, xv >= 0.75]), 'solved', 1.25, xv, [0.75]))
+    xv = cl.Variable(shape=(1,), name='x')
+    out.append(('norm_constant_component_infeasible', cl.Problem(cl.MIN, xv[0], [cl.vector2norm(cl.hstack((xv, np.array([3.0])))) <= 2]), 'solved', math.inf, xv, None))
     x = cl.Variable(shape=(1,), name='x')
     t = cl.Variable(shape=(1,), name='t')
     out.append(('exp_epi', cl.Problem(cl.MIN, t[0], [cl.weighted_sum_exp(np.array([1.0]), x) <= t[0], x[0] >= 1]), 'solved', math.e, x, [1]))
